@@ -163,6 +163,12 @@ impl PeerGen {
                 if rng.chance(1, 2) {
                     v.extend_from_slice(&utf8_text(rng));
                 }
+                if rng.chance(1, 6) {
+                    // a reason at or just below the largest size a control frame can carry
+                    let n = *rng.pick(&[120usize, 121, 122, 123]);
+                    v.truncate(2);
+                    v.extend((0..n).map(|i| b'a' + (i % 26) as u8));
+                }
                 v.truncate(125);
                 v
             }
@@ -530,6 +536,28 @@ pub fn gen_endpoint(rng: &mut Rng, prof: Profile, id: usize) -> Vec<String> {
             }
             lines.push(s.trim_end().to_string());
         }
+        // now and then the configuration changes on the live connection (always to a valid one)
+        if matches!(prof, Profile::Backpressure | Profile::Hostile | Profile::Limits | Profile::Tinybuf) && rng.chance(1, 14) {
+            let w = *rng.pick(&[0usize, 1, 20, 100]);
+            let mw = match rng.below(4) {
+                0 => "inf".to_string(),
+                1 => format!("{}", w + 1 + rng.below(8)),
+                2 => format!("{}", w + 100 + rng.below(100)),
+                _ => format!("{}", w + 400),
+            };
+            // the limits stay finite (the quantifier of C06 / C07)
+            let lim = |rng: &mut Rng| match rng.below(3) {
+                0 => format!("{}", *rng.pick(&[0usize, 1, 5, 125, 126, 300])),
+                _ => format!("{}", 1usize << 20),
+            };
+            lines.push(format!(
+                "op setcfg role={} rbuf=4096 wbuf={w} maxw={mw} maxmsg={} maxframe={} unmasked={} m=-",
+                if cc.client { "client" } else { "server" },
+                lim(rng),
+                lim(rng),
+                rng.chance(1, 3) as u8
+            ));
+        }
         // the op
         let r = rng.below(total);
         let m = masks_tok(rng, cc.client, 10);
@@ -566,7 +594,11 @@ pub fn gen_endpoint(rng: &mut Rng, prof: Profile, id: usize) -> Vec<String> {
             } else {
                 let code = *rng.pick(&[1000u16, 1001, 1002, 1011, 3000, 4000]);
                 let mut reason = utf8_text(rng);
-                reason.truncate(100);
+                if rng.chance(1, 6) {
+                    let n = *rng.pick(&[120usize, 121, 122, 123]);
+                    reason = (0..n).map(|i| b'a' + (i % 26) as u8).collect();
+                }
+                reason.truncate(123);
                 while std::str::from_utf8(&reason).is_err() {
                     reason.pop();
                 }
